@@ -34,7 +34,7 @@ from bind import c02
 PROP = "C01"
 NEW = "zz"
 
-MAIN_GROUPS = ["core", "core2", "defnames", "targets", "comp", "calls", "decoys"]
+MAIN_GROUPS = ["core", "core2", "defnames", "targets", "comp", "calls", "decoys", "modules"]
 FEATURE_GROUPS = ["params", "stmts", "walrus", "lambda"]
 
 _ROOT = None
@@ -79,6 +79,23 @@ def table_shape(src):
     return walk(symtable.symtable(src, "<m>", "exec"))
 
 
+def twin_text(r, text):
+    """generator-expression twin (see _pyscope.genexp_twin) of rope's output: the comprehension
+    brackets are found through the token alignment with the rendered input"""
+    if not r.brackets:
+        return text
+    before = tokens(r.src)
+    after = tokens(text)
+    index = {p: i for i, (_, _, p) in enumerate(before)}
+    lines = [list(l) for l in text.split("\n")]
+    for (o, c) in r.brackets.values():
+        for pos, ch, rep in ((o, "[", "("), (c, "]", ")")):
+            ln, col = after[index[pos]][2]
+            assert lines[ln - 1][col] == ch
+            lines[ln - 1][col] = rep
+    return "\n".join("".join(l) for l in lines)
+
+
 def tables_iso(a, b, old, new):
     """b equals a up to renaming old -> new, decided per table"""
     if a[0] != b[0] or len(a[2]) != len(b[2]):
@@ -91,18 +108,17 @@ def tables_iso(a, b, old, new):
     return all(tables_iso(x, y, old, new) for x, y in zip(a[2], b[2]))
 
 
-def rename_at(src, offset, new):
-    """run the refactoring on the real project; returns dict(status=..., text=...)"""
+def snapshot(project):
+    return {f.path: f.read() for f in project.get_python_files()}
+
+
+def rename_at(project, files, place, new):
+    """run the refactoring on the real project; place = (path, offset | None: rename the resource)"""
     from rope.base import exceptions
     from rope.refactor import rename
-    project = _project()
-    res = project.get_file("mod.py")
-    if not res.exists():
-        res.create()
-    if res.read() != src:
-        res.write(src)
+    res = project.get_file(place[0])
     try:
-        changes = rename.Rename(project, res, offset).get_changes(new)
+        changes = rename.Rename(project, res, place[1]).get_changes(new)
     except exceptions.RopeError as e:
         return {"status": "refused", "exc": type(e).__name__, "msg": str(e)[:100]}
     except Exception as e:  # noqa
@@ -111,111 +127,150 @@ def rename_at(src, offset, new):
         project.do(changes)
     except Exception as e:  # noqa
         return {"status": "error", "exc": type(e).__name__, "msg": str(e)[:200], "when": "do"}
-    text = res.read()
-    out = {"status": "changed" if text != src else "noop", "text": text,
-           "others": sorted(f.path for f in project.get_python_files() if f.path != "mod.py")}
+    after = snapshot(project)
+    out = {"status": "changed" if after != files else "noop", "files": after}
     try:
         project.history.undo()
-        out["undone"] = res.read() == src
+        out["undone"] = snapshot(project) == files
     except Exception as e:  # noqa
         out["undone"] = False
         out["undo_exc"] = type(e).__name__
-    if res.read() != src:
-        res.write(src)
     project.history.clear()
     return out
 
 
-def judge(prog, r, q, res, pre_out, old, b):
-    """failures of one rename request; [] if the program is preserved"""
+def judge(prog, r, rp, q, qdesc, res, ren):
+    """failures of one rename request; ([], summary) if the program is preserved.
+    q: the event asked at (None for a module token / the resource itself)"""
     fails = []
-    offs = r.offsets()
-    key_at = {}
-    for k, pos in r.tok.items():
-        key_at[pos] = k
+    old, new, kind = ren["old"], ren["new"], ren["kind"]
     by_key = {ps.ev_key(e): e for e in prog.events}
+    classes = prog.classes()
+    cls_key = ("lib" if kind in ("lib", "external") else ren["scope"], old)
+    anchor = q if q is not None else None
 
     def fail(clause, obs, t, detail):
-        for c in c02.causes_for(prog, q, t):
-            fails.append(({"clause": clause, "obs": obs, "cause": c, "query": q["op"], "token": t["op"]}, detail))
+        if kind == "module" or anchor is None:
+            cause = "module-rename:%s" % prog.lib
+            if prog.lib != "relative" and any(e["op"] == "asattr" and e["s"] != 1 for e in prog.events):
+                cause = "aliased-import-in-indented-block"
+            fails.append(({"clause": clause, "obs": obs, "cause": cause}, detail))
+            return
+        for c in c02.causes_for(prog, anchor, t if t is not None else anchor):
+            fails.append(({"clause": clause, "obs": obs, "cause": c, "query": anchor["op"],
+                           "token": (t or anchor)["op"]}, detail))
     if res["status"] == "error":
-        t = q
-        for m in prog.classes()[(b, old)]:
-            if not c02.causes_for(prog, q, m)[0].startswith("by:"):
-                t = m
-                break
+        t = anchor
+        if anchor is not None and kind != "module":
+            for m in classes[cls_key]:
+                if not c02.causes_for(prog, anchor, m)[0].startswith("by:"):
+                    t = m
+                    break
         fail("error", res["exc"], t, "%s raised %s: %s" % (res["when"], res["exc"], res["msg"]))
         return fails, None
-    text = res["text"]
+    after = res["files"]
     if not res.get("undone", True):
-        fail("undo", "", q, "undo after the rename does not restore the module text")
-    if res.get("others"):
-        fail("stray-file", "", q, "unexpected files %s" % res["others"])
+        fail("undo", "", anchor, "undo after the rename does not restore the project")
+    want_files = rp.files
+    # pair every file of the input with its text afterwards (the second module may move)
+    pairs = {}
+    for path in r.files:
+        moved = rp.lib_path if path == r.lib_path else path
+        if path in after and moved not in after:
+            pairs[path] = path
+        else:
+            pairs[path] = moved
+    if sorted(after) != sorted(want_files):
+        fail("files", "missing" if set(after) < set(want_files) else "other", anchor,
+             "files after the rename %s, expected %s" % (sorted(after), sorted(want_files)))
+        if any(pairs[p_] not in after for p_ in pairs):
+            return fails, None
     broken = None
-    try:
-        compile(text, "<renamed>", "exec")
-    except SyntaxError as e:
-        broken = str(e)
-    before = tokens(r.src)
-    try:
-        after = tokens(text)
-    except (tokenize.TokenError, SyntaxError, IndentationError) as e:
-        fail("not-parsing", "", q, "result does not tokenize: %s" % e)
-        return fails, None
-    if len(before) != len(after):
-        fail("garbled", "token-count", q, "token count changed from %d to %d" % (len(before), len(after)))
-        return fails, None
-    changed = set()      # event keys whose token changed
-    for (t0, s0, p0), (t1, s1, p1) in zip(before, after):
-        if s0 == s1 and t0 == t1:
-            continue
-        k = key_at.get(p0)
-        if k is None or by_key[k]["op"] in ps.DECOYS or t0 != tokenize.NAME:
-            # text that is not a name token of the program: comment, string, helper name
-            inside = [kk for kk, pos in r.tok.items() if pos[0] == p0[0] and by_key[kk]["op"] in ps.DECOYS]
-            if inside:
-                fail("text", "decoy", by_key[inside[0]],
-                     "text of a %s changed: %r -> %r" % (by_key[inside[0]]["op"], s0, s1))
-            else:
-                fail("garbled", "other-token", q, "token %r at %s became %r" % (s0, p0, s1))
-            continue
-        if s1 != NEW or s0 != old:
-            fail("garbled", "wrong-text", by_key[k], "token %r at %s became %r" % (s0, p0, s1))
-        changed.add(k)
-    classes = prog.classes()
-    want = {ps.ev_key(e) for e in classes[(b, old)]}
-    for k in sorted(want - changed):
-        fail("missing", "self" if k == ps.ev_key(q) else "other", by_key[k],
-             "asked at %s: token %s of the renamed binding (scope %d) was not renamed" % (ps.ev_key(q), k, b))
+    for path, text in after.items():
+        try:
+            compile(text, path, "exec")
+        except SyntaxError as e:
+            broken = "%s: %s" % (path, e)
+    key_at = {}
+    for k, pos in r.tok.items():
+        key_at[(r.main, pos)] = k
+    for k, pos in r.lib_tok.items():
+        key_at[(r.lib_path, pos)] = k
+    modtok_at = {(p_, (l, c)) for (p_, l, c) in r.mod_tokens}
+    changed, changed_mod = set(), set()
+    for path, apath in pairs.items():
+        before = tokens(r.files[path])
+        try:
+            aft = tokens(after[apath])
+        except (tokenize.TokenError, SyntaxError, IndentationError) as e:
+            fail("not-parsing", "", anchor, "%s does not tokenize: %s" % (apath, e))
+            return fails, None
+        if len(before) != len(aft):
+            fail("garbled", "token-count", anchor, "token count of %s changed from %d to %d" % (path, len(before), len(aft)))
+            return fails, None
+        for (t0, s0, p0), (t1, s1, p1) in zip(before, aft):
+            if s0 == s1 and t0 == t1:
+                continue
+            if (path, p0) in modtok_at and t0 == tokenize.NAME:
+                if s1 != (new if kind == "module" else s0):
+                    fail("garbled", "module-token", anchor, "module token %r at %s:%s became %r" % (s0, path, p0, s1))
+                changed_mod.add((path, p0))
+                continue
+            k = key_at.get((path, p0))
+            if k is None or by_key[k]["op"] in ps.DECOYS or t0 != tokenize.NAME:
+                inside = [kk for kk, pos in r.tok.items() if path == r.main and pos[0] == p0[0] and by_key[kk]["op"] in ps.DECOYS]
+                if inside:
+                    fail("text", "decoy", by_key[inside[0]],
+                         "text of a %s changed: %r -> %r" % (by_key[inside[0]]["op"], s0, s1))
+                else:
+                    fail("garbled", "other-token", anchor, "token %r at %s:%s became %r" % (s0, path, p0, s1))
+                continue
+            if s1 != new or s0 != old or kind == "module":
+                fail("garbled", "wrong-text", by_key[k], "token %r at %s:%s became %r" % (s0, path, p0, s1))
+            changed.add(k)
     whole_others = []
-    for (cb, cn), members in sorted(classes.items()):
-        if cn != old or cb == b:
-            continue
-        keys = {ps.ev_key(e) for e in members}
-        hit = keys & changed
-        if hit and hit != keys:
-            for k in sorted(hit):
-                fail("captured", "partial-class", by_key[k],
-                     "asked at %s (binding of scope %d): token %s of the binding of scope %d was renamed, "
-                     "tokens %s of that binding were not" % (ps.ev_key(q), b, k, cb, sorted(keys - hit)))
-        elif hit:
-            whole_others.append(cb)
+    if kind == "module":
+        for place in sorted(modtok_at - changed_mod):
+            fail("missing", "module-token", None, "%s: the module token at %s:%s still names the old module" % (qdesc, place[0], place[1]))
+    else:
+        want = {ps.ev_key(e) for e in classes[cls_key]}
+        for k in sorted(want - changed):
+            fail("missing", "self" if q is not None and k == ps.ev_key(q) else "other", by_key[k],
+                 "asked at %s: token %s of the renamed binding %s was not renamed" % (qdesc, k, cls_key))
+        for k in sorted(changed):
+            if not by_key[k]["det"] and by_key[k]["b"] == 0 and not by_key[k].get("lc"):
+                # an unbound / builtin name (it stands for any identifier defined outside the
+                # program) is not a token of the renamed binding
+                fail("captured", "undetermined", by_key[k],
+                     "asked at %s (binding %s): the unbound name token %s was renamed too" % (qdesc, cls_key, k))
+        for ck, members in sorted(classes.items(), key=lambda kv: (str(kv[0][0]), kv[0][1])):
+            if ck[1] != old or ck == cls_key:
+                continue
+            keys = {ps.ev_key(e) for e in members}
+            hit = keys & changed
+            if hit and hit != keys:
+                for k in sorted(hit):
+                    fail("captured", "partial-class", by_key[k],
+                         "asked at %s (binding %s): token %s of the binding %s was renamed, tokens %s of that "
+                         "binding were not" % (qdesc, cls_key, k, ck, sorted(keys - hit)))
+            elif hit:
+                whole_others.append(ck[0])
     if broken is not None:
-        # attribute the syntax error to what the token analysis found
         culprits = [(k, d) for k, d in fails if k["clause"] in ("missing", "captured", "garbled", "text")]
         if culprits:
             for k, d in culprits[:]:
                 fails.append((dict(k, clause="not-parsing", obs=""), "result does not compile: %s; %s" % (broken, d)))
         else:
-            fail("not-parsing", "", q, "result does not compile: %s" % broken)
+            fail("not-parsing", "", anchor, "result does not compile: %s" % broken)
         return fails, None
-    return fails, {"changed": sorted(changed), "whole_other_classes": whole_others}
+    return fails, {"changed": sorted(changed), "whole_other_classes": whole_others,
+                   "main_after": after[pairs[r.main]]}
 
 
 def run_case(item):
     group, beh = item
-    pre = ps.Program(beh["pre"])
     ren = beh["ren"]
+    pre = ps.Program(beh["pre"])
     post = ps.Program(beh["post"], order_as={ren["new"]: ren["old"]})
     r = ps.render(pre)
     rp = ps.render(post)
@@ -223,64 +278,95 @@ def run_case(item):
         info = ps.cpython_check(pre, r)
         info_post = ps.cpython_check(post, rp)
     except ps.SpecMismatch as e:
-        return {"machinery": "spec vs CPython: %s\n%s\n%s" % (e, ps.describe(pre), r.src)}
+        return {"machinery": "spec vs CPython: %s\n%s\n%s" % (e, ps.describe(pre), r.files)}
     if (info["out"], info["exc"]) != (info_post["out"], info_post["exc"]):
         return {"machinery": "the spec's Rename changes what the program prints:\n%s\n--- after Rename%s ---\n%s\n%s vs %s" % (
-            r.src, ren, rp.src, info["out"], info_post["out"])}
-    if [(t, s if s != NEW else ren["old"]) for t, s, _ in tokens(rp.src)] != [(t, s) for t, s, _ in tokens(r.src)]:
-        return {"machinery": "the spec's Rename is not a pure token substitution:\n%s\n---\n%s" % (r.src, rp.src)}
-    b, old = ren["scope"], ren["old"]
-    members = pre.classes()[(b, old)]
-    offs = r.offsets()
-    shape_pre = table_shape(r.src)
+            r.files, ren, rp.files, info["out"], info_post["out"])}
+    if ren["kind"] != "module":
+        for path in r.files:
+            if [(t, s if s != NEW else ren["old"]) for t, s, _ in tokens(rp.files[path])] != \
+                    [(t, s) for t, s, _ in tokens(r.files[path])]:
+                return {"machinery": "the spec's Rename is not a pure token substitution:\n%s\n---\n%s" % (r.files, rp.files)}
+    places = r.places()
+    if ren["kind"] == "module":
+        requests = [(None, "module token %s:%d" % pl, pl) for pl in r.module_places()]
+        requests.append((None, "the resource %s" % r.lib_path, (r.lib_path, None)))
+        new = ren["new"]
+    else:
+        cls_key = ("lib" if ren["kind"] in ("lib", "external") else ren["scope"], ren["old"])
+        requests = [(q, str(ps.ev_key(q)), places[ps.ev_key(q)]) for q in pre.classes()[cls_key]
+                    if not places[ps.ev_key(q)][0].startswith("<outside>/")]
+        new = NEW
+    shape_pre = table_shape(ps.genexp_twin(r))
     out = {"group": group, "fails": [], "requests": 0, "refused": 0, "noop": 0, "changed": 0, "exact": 0,
-           "over": 0}
+           "over": 0, "kind": ren["kind"]}
     fails_all = []
     results = {}
-    for q in members:
-        res = rename_at(r.src, offs[ps.ev_key(q)], NEW)
-        out["requests"] += 1
-        results[str(ps.ev_key(q))] = {k: v for k, v in res.items() if k != "text"}
-        if res["status"] == "refused":
-            out["refused"] += 1
-            continue
-        if res["status"] == "noop":
-            out["noop"] += 1
-            continue
-        fails, summary = judge(pre, r, q, res, info["out"], old, b)
-        if res["status"] == "changed":
+    project, close = c02.open_project(r)
+    files = dict((k, v) for k, v in r.files.items())
+    try:
+        if snapshot(project) != {k: v for k, v in files.items()}:
+            return {"machinery": "project files differ from the rendering: %s" % sorted(snapshot(project))}
+        for q, qdesc, place in requests:
+            res = rename_at(project, files, place, new)
+            out["requests"] += 1
+            results[qdesc] = {k: v for k, v in res.items() if k != "files"}
+            if snapshot(project) != files:      # undo failed: restore by hand for the next request
+                return dict(out, machinery_soft=True, fails=[{"key": {"clause": "undo", "obs": "", "cause": "restore"},
+                                                               "detail": "undo did not restore the project"}],
+                            program=ps.describe(pre), files=r.files, expected=rp.files, beh=beh, results=results)
+            if res["status"] == "refused":
+                out["refused"] += 1
+                continue
+            if res["status"] == "noop":
+                out["noop"] += 1
+                continue
             out["changed"] += 1
-        if not fails and summary is not None:
-            # token-level verdict: alpha-equivalent.  CPython must agree.
-            try:
-                iso = tables_iso(shape_pre, table_shape(res["text"]), old, NEW)
-            except SyntaxError:
-                iso = False
-            o2, e2 = ps.execute(res["text"])
-            if not iso or (o2, e2) != (info["out"], info["exc"]):
-                return {"machinery": "token-level verdict says equivalent, CPython disagrees (tables iso=%s, output %s vs %s)\n%s\n---\n%s" % (
-                    iso, info["out"], o2, r.src, res["text"])}
-            if summary["whole_other_classes"]:
-                out["over"] += 1
-            elif res["text"] == rp.src:
-                out["exact"] += 1
-        if fails:
-            results[str(ps.ev_key(q))]["text"] = res.get("text")
-            try:
-                o2, e2 = ps.execute(res["text"])
-                results[str(ps.ev_key(q))]["prints_same"] = (o2, e2) == (info["out"], info["exc"])
-            except Exception:  # noqa
-                pass
-        fails_all.extend(fails)
+            if ren["kind"] == "external":
+                # the definition lies outside the project: no edit of the project can keep
+                # the uses bound to it
+                o2, e2 = ps.execute_project(res["files"], r.main, r.outside)
+                fails_all.append(({"clause": "external", "obs": "prints-same" if (o2, e2) == (info["out"], info["exc"]) else "prints-differently",
+                                   "cause": "name-defined-outside-the-project", "query": q["op"]},
+                                  "asked at %s: the name is defined in %s outside the project, yet the project was "
+                                  "edited; running it now gives %s/%s instead of %s/%s" % (
+                                      qdesc, r.lib_path, o2, e2, info["out"], info["exc"])))
+                results[qdesc]["files"] = res.get("files")
+                continue
+            fails, summary = judge(pre, r, rp, q, qdesc, res, ren)
+            if not fails and summary is not None:
+                # token-level verdict: alpha-equivalent.  CPython must agree.
+                try:
+                    iso = tables_iso(shape_pre, table_shape(twin_text(r, summary["main_after"])),
+                                     ren["old"], new)
+                except SyntaxError:
+                    iso = False
+                main_after = rp.main
+                if r.lib_path is None:
+                    o2, e2 = ps.execute(summary["main_after"])
+                else:
+                    o2, e2 = ps.execute_project(res["files"], main_after, r.outside)
+                if not iso or (o2, e2) != (info["out"], info["exc"]):
+                    return {"machinery": "token-level verdict says equivalent, CPython disagrees (tables iso=%s, output %s/%s vs %s/%s)\n%s\n---\n%s" % (
+                        iso, info["out"], info["exc"], o2, e2, r.files, res["files"])}
+                if summary["whole_other_classes"]:
+                    out["over"] += 1
+                elif res["files"] == rp.files:
+                    out["exact"] += 1
+            if fails:
+                results[qdesc]["files"] = res.get("files")
+            fails_all.extend(fails)
+    finally:
+        close()
     if fails_all:
         out["fails"] = [{"key": k, "detail": d} for k, d in fails_all]
         out["program"] = ps.describe(pre)
-        out["src"] = r.src
-        out["expected"] = rp.src
+        out["files"] = r.files
+        out["expected"] = rp.files
         out["beh"] = beh
         out["results"] = results
     elif beh.get("_sample"):
-        out["sample"] = {"program": ps.describe(pre), "rename": ren, "source": r.src, "spec_after": rp.src,
+        out["sample"] = {"program": ps.describe(pre), "rename": ren, "files": r.files, "spec_after": rp.files,
                          "rope": results}
     return out
 
@@ -291,7 +377,7 @@ def main(tier):
     verdict = common.Verdict(PROP)
     rnd = common.rng("c01")
     groups = MAIN_GROUPS + FEATURE_GROUPS
-    per_group_quick = 1500
+    per_group_quick = 700
     tlc_stats = {}
     items = []
     states = transitions = 0
@@ -327,7 +413,9 @@ def main(tier):
         sens = r2.violated
         if r2.violated != "AlphaEq":
             verdict.machinery_failure("model insensitive: Rename to a non-fresh name does not violate AlphaEq (%s)" % r2.violated)
+    print("TLC done after %.0f s; replaying %d items" % (timer.s(), len(items)))
     _ROOT = common.scratch("c01_")
+    c02._ROOT = _ROOT
     replayed = 0
     tot = {"requests": 0, "refused": 0, "noop": 0, "changed": 0, "exact": 0, "over": 0}
     by_group = {}
@@ -354,7 +442,7 @@ def main(tier):
                     continue
                 seen.add(ks)
                 verdict.failure(f["key"], {"property": PROP, "key": f["key"], "detail": f["detail"],
-                                           "program": r["program"], "source": r["src"],
+                                           "program": r["program"], "files": r["files"],
                                            "spec_rename": r["beh"]["ren"], "spec_after": r["expected"],
                                            "rope_results": r["results"], "behaviour": r["beh"]})
     finally:
